@@ -59,7 +59,7 @@ class Prop(BaseProp):
     budget = {"quick": 2800, "thorough": 800000}
     must_see = ["tail:op1_tail_longer", "tail:op2_tail_longer", "tail:end_together", "both_operands_without_events",
                 "one_operand_without_events", "event_on_t_start", "event_on_t_end", "interval_end_on_event",
-                "interval_without_events", "interval_list", "plottable_k>0", "shared_event_time", "copy_op", "integer_dtype_operand"]
+                "interval_without_events", "interval_list", "plottable_k>0", "shared_event_time", "copy_op", "integer_dtype_operand", "touching_intervals_on_event"]
     must_contracts = ["inv:DiscreteFunc"]
     arm_files = [("pyspike/DiscreteFunc.py", None),
                  ("pyspike/cython/python_backend.py", ["add_discrete_function_python"])]
@@ -84,6 +84,11 @@ class Prop(BaseProp):
                     ivs = []
                     for _ in range(rng.choice([1, 2, 2, 3])):
                         a, b, kd = gen.pick_interval(rng, ts, te, ev)
+                        if ivs and rng.random() < 0.4 and ivs[-1][1] < te:
+                            # touching intervals: the next one starts where the previous one ends (often on an event)
+                            a = ivs[-1][1]
+                            later = [t for t in ev + [te] if t > a]
+                            b = rng.choice(later) if later else te
                         ivs.append([a, b])
                     qs.append(["ivs", ivs])
                 else:
@@ -172,6 +177,8 @@ class Prop(BaseProp):
             elif qy[0] == "ivs":
                 ctx.count("interval_list")
                 ivs = [tuple(v) for v in qy[1]]
+                if any(ivs[q][1] == ivs[q + 1][0] and ivs[q][1] in evt for q in range(len(ivs) - 1)):
+                    ctx.count("touching_intervals_on_event")
                 got = ctx.call(obj.integral, ivs, _name="DiscreteFunc.integral")
                 sy = sum(mod.sums(a, b)[0] for a, b in ivs)
                 sm = sum(mod.sums(a, b)[1] for a, b in ivs)
